@@ -97,11 +97,17 @@ def probes(R, C, state):
           ("get_named_pi:unknown", "get_named_pi p0 nosuchrow"), ("get_named_slack:unknown", "get_named_slack p0 nosuchrow"),
           ("delete_named_rows_list:unknown", "delete_named_rows_list p0 1 nosuchrow"), ("delete_named_columns_list:unknown", "delete_named_columns_list p0 1 nosuchcol")]
     if R > 0:
+        # the same new name twice after a NULL (default-named) entry of the same list
+        P += [("add_rows:null-then-dup", "add_rows p0 4 1 L FRA 0 1 L ~ 0 2 G SAME 0 2 G SAME 0"),
+              ("add_ranged_rows:null-then-dup", "add_ranged_rows p0 3 1 L 0 ~ 0 2 R 1 SAME 0 2 G 0 SAME 0"),
+              ("add_rows:null-then-existing", "add_rows p0 2 1 L ~ 0 2 G c1 0")]
         P += [("new_row:dupname", "new_row p0 1 L c1"), ("add_row:dupname", "add_row p0 1 L c2 1 0 1"), ("add_ranged_row:dupname", "add_ranged_row p0 1 R 1 c1 0"),
               ("add_rows:dupname", "add_rows p0 2 1 L FRESH1 0 2 G c1 0"), ("add_rows:dup-within", "add_rows p0 2 1 L SAME 0 2 G SAME 0"),
               ("delete_named_rows_list:last-unknown", "delete_named_rows_list p0 2 c1 nosuchrow"),
               ("get_named_pi:colname", "get_named_pi p0 x"), ("delete_named_row:colname", "delete_named_row p0 x")]
     if C > 0:
+        P += [("add_cols:null-then-dup", "add_cols p0 4 1 0 5 FRA 0 1 0 5 ~ 0 1 0 5 SAME 0 1 0 5 SAME 0"),
+              ("add_cols:null-then-existing", "add_cols p0 2 1 0 5 ~ 0 1 0 5 x 0")]
         P += [("new_col:dupname", "new_col p0 1 0 5 x"), ("add_col:dupname", "add_col p0 1 0 5 y 0"), ("add_cols:dupname", "add_cols p0 2 1 0 5 FRESH1 0 1 0 5 x 0"),
               ("add_cols:dup-within", "add_cols p0 2 1 0 5 SAME 0 1 0 5 SAME 0"),
               ("delete_named_columns_list:last-unknown", "delete_named_columns_list p0 2 x nosuchcol"),
